@@ -50,12 +50,11 @@ theorem canon_class_unique (sh : Shp) (wf : WF sh) (hsl : sh.hasSlice = true) (c
 the original key -/
 
 theorem split_merge_slice_total (null : α) (sh : Shp) (hc : Consistent sh) (hS2 : 2 ≤ sh.S)
-    (hV2 : sh.hasVector = true → 2 ≤ sh.V)
     (ks : KeyState α) (hv : ValidK sh ks) (hcan : Canonical null sh ks) :
     ∃ (pieces : Nat → KeyState α) (r : KeyState α),
       (∀ i, i < sh.S → subsetSliceK null sh ks i = .ok (pieces i)) ∧
       mergeSliceK null sh ((List.range sh.S).map pieces) = .ok r ∧ r = ks :=
-  Total.split_merge_slice_total null sh hc hS2 hV2 ks hv hcan
+  Total.split_merge_slice_total null sh hc hS2 ks hv hcan
 
 theorem split_merge_time_total (null : α) (sh : Shp) (hc : Consistent sh) (h4 : sh.nd = 4)
     (ks : KeyState α) (hv : ValidK sh ks) (hcan : Canonical null sh ks) :
